@@ -16,7 +16,16 @@ DUMMY belief as the known finding's premise only where the history accounts for 
 Abort-then (suite abort-then): send_config(s) with stop_on_failed whose k-th line fails (the platform _abort_config runs),
 then configs at the same / another / the default level, a command, an interactive, acquire_priv.  The oracle and the
 scenario loop take nothing from the translator's reading of _abort_config: when it refuses the function (tie reported
-broken) that platform's histories are still run on the real drivers and judged on the device's log (oracle-only)."""
+broken) that platform's histories are still run on the real drivers and judged on the device's log (oracle-only).
+Re-open (suites reopen, reopen-random): the second / third session of ONE driver object — open, ..., close, open again, also
+as two with-blocks — on a device re-started at a login level (exec vs privilege_exec), closed after having been in every
+level; the tracked level survives close(), only on_open's explicit acquire_priv re-synchronises it.  The lines on_open itself
+passes to send_command are commands like any other: the oracle holds them to the default desired level.  Oracle-only.
+Refusing / ignoring devices (suites dev-refuse, dev-ignore): one transition of the vendor table is answered with the
+invalid-input text / a bare prompt, for every transition and every operation that needs it.  Oracle-only.
+Translator refusals never stop the failing-input search: every GenError of gen_netdriver is turned into a reported broken tie
+plus tables for the oracle (per function where the rest can be kept, per platform — fallback_facts — otherwise, for the whole
+tree if generate() itself fails), and every suite is run on the real code and judged by the device-log oracle."""
 import itertools
 import json
 import os
@@ -52,8 +61,25 @@ def dev_mode_name(m):
     return m[len("session:"):] if m.startswith("session:") else m
 
 
+def restart_device(dev, d, login):
+    """a NEW session of the same driver object: the device is where a fresh login puts it (its login level, empty line
+    buffer, no sub-mode), whatever the previous session left unread is gone with that session, the login prompt is printed"""
+    dev.mode = login
+    dev.submode = ""
+    dev.line = bytearray()
+    dev.dialog = None
+    dev._skip_lf = False
+    dev.closed = False
+    d.transport.delivered = len(dev.out)
+    dev.start()
+
+
 def run_history(info, sc):
-    """sc: {platform, stack, login, secret, policy, ops}.  Returns the list of observations, one per op
+    """sc: {platform, stack, login, secret, policy, ops [, refuse, ignore]}.  refuse / ignore: [[device mode, line]]
+    transitions the device answers with its invalid-input text / with a bare prompt, staying where it is.
+    {"op": "close"} ends the session (driver.close(); via "with": __exit__ / __aexit__); an {"op": "open"} after the first
+    one opens the NEXT session of the same driver object on the device re-started at its login level ("login" of the op,
+    default: the scenario's).  Returns the list of observations, one per op
     (the history stops early only if the device starves the client: a read that would block forever).
     An op may carry "fault": {"at": j, "kind": "exc"|"timeout"|"cancel"}: the j-th transport read/write of that
     operation raises (or, "cancel", never completes and the caller's asyncio.wait_for gives up); the caller
@@ -65,9 +91,11 @@ def run_history(info, sc):
     plat = sc["platform"]
     pi = info[plat]
     dev = SimDevice(plat, outputs=_outputs(pi["failed_when_contains"][0]), secret=sc.get("secret"),
-                    login_mode=sc["login"])
+                    login_mode=sc["login"], refuse=[tuple(x) for x in sc.get("refuse") or ()],
+                    ignore=[tuple(x) for x in sc.get("ignore") or ()])
     dev.start()
     obs = []
+    sessions_opened = 0
     faulty = any(o.get("fault") or o.get("probe") for o in sc["ops"])
     with warnings.catch_warnings():
         warnings.simplefilter("ignore")
@@ -76,6 +104,10 @@ def run_history(info, sc):
         r = Runner(sc["stack"])
         try:
             for o in sc["ops"]:
+                if o["op"] == "open":
+                    if sessions_opened:
+                        restart_device(dev, d, o.get("login") or sc["login"])
+                    sessions_opened += 1
                 n0 = len(dev.log)
                 res = "ok"
                 before = {"belief": d._current_priv_level.name, "mode": dev_mode_name(dev.mode), "generic": bool(d._generic_driver_mode)}
@@ -86,7 +118,15 @@ def run_history(info, sc):
                 try:
                     k = o["op"]
                     if k == "open":
-                        call(d.open)
+                        if o.get("via") == "with":
+                            call(d.__enter__ if sc["stack"] == "sync" else d.__aenter__)
+                        else:
+                            call(d.open)
+                    elif k == "close":
+                        if o.get("via") == "with":
+                            call(*((d.__exit__,) if sc["stack"] == "sync" else (d.__aexit__,)), None, None, None)
+                        else:
+                            call(d.close)
                     elif k == "cmds":
                         if o.get("single") and len(o["lines"]) == 1:
                             call(d.send_command, o["lines"][0])
@@ -193,6 +233,8 @@ def op_want(pi, o, bef):
     tgt = o.get("level") if k == "acquire" else want
     if k == "open":
         tgt = default
+    if k == "close":
+        tgt = default
     return want, ulines, tgt
 
 
@@ -296,13 +338,13 @@ def oracle_int(info, sc, obs):
 
 def abort_unknown(pi):
     """the translator refused this platform's _abort_config: the lines of its abort step have no id (not in line_ids)"""
-    return any("_abort_config not translated" in p for p in pi.get("problems", []))
+    return bool(pi.get("fallback")) or any("_abort_config not translated" in p for p in pi.get("problems", []))
 
 
 def untranslated(info, plat):
     """the translator refused a function of this platform (reported as a broken tie): its histories cannot be put to the
     model (lines / shapes without an id); the real code is still run on them and judged by the device-log oracle"""
-    return bool(info[plat].get("problems"))
+    return bool(info[plat].get("problems")) or bool(info[plat].get("fallback"))
 
 
 def oracle(info, sc, obs, belief=True):
@@ -329,7 +371,14 @@ def oracle(info, sc, obs, belief=True):
         elif k == "interactive":
             ulines = list(o["lines"])
             want = o["priv"] if o.get("priv") is not None else (None if bef["generic"] else default)
+        elif k == "open":
+            # on_open passes these lines to send_command: the API promises the default desired level for them as for any
+            # other command (which lines: from the on_open function run against a recording stub, not from the model)
+            ulines = list(pi.get("open_cmds") or [])
+            want = None if bef["generic"] else default
         tgt = o.get("level") if k == "acquire" else want
+        if k in ("open", "close"):
+            tgt = default
         region = (bef["belief"] == "DUMMY" and explained[i] and tgt is not None and tgt != bef["mode"] and tgt in pi["level_ids"]
                   and shared_prompt(plat, sim_mode(pi, bef["mode"]), sim_mode(pi, tgt)))
         uset = set(ulines)
@@ -337,7 +386,9 @@ def oracle(info, sc, obs, belief=True):
         for (m, l) in ran:
             if want is not None and m != want:
                 return i, "line %r of %s ran in %r, not in %r" % (l, k, m, want), region
-        if ob["result"] == "ok" and [l for (_, l) in ran] != ulines:
+        if k == "open":
+            pass          # which of its lines on_open sends is its own business; where they run is the property's
+        elif ob["result"] == "ok" and [l for (_, l) in ran] != ulines:
             return i, "%s: lines that reached the device %r, expected %r" % (k, [l for (_, l) in ran], ulines), region
         # the platform's abort step (after the failing line of a send_configs with stop_on_failed): its lines are in the
         # table (navset) when the translator read _abort_config; when it refused the function the property puts no
@@ -346,8 +397,13 @@ def oracle(info, sc, obs, belief=True):
         if k == "cfgs" and o.get("stop") and abort_unknown(pi):
             bad_at = [ix for ix, (_, l) in enumerate(ob["log"]) if l.startswith("bad ")]
             free_from = bad_at[0] + 1 if bad_at else None
+        # on_close ends the session with a line of its own (read off the function by the recording stub); an on_open /
+        # on_close the stub could not follow (tie reported broken) is not constrained in what it types
+        own = set(pi.get("close_lines") or []) if k == "close" else set()
+        if (k == "open" and not pi.get("open_known", True)) or (k == "close" and not pi.get("close_known", True)):
+            free_from = 0
         for ix, (m, l) in enumerate(ob["log"]):
-            if l not in uset and l not in navset:
+            if l not in uset and l not in navset and l not in own:
                 if free_from is not None and ix >= free_from and not TOKEN.search(l):
                     continue
                 return i, "unexpected line %r executed in %r" % (l, m), region
@@ -766,6 +822,154 @@ def abort_then_scenarios(info, thorough):
     return out
 
 
+# ------------------------------------------------------------------------------------------------
+# re-open: the second (third) session of ONE driver object — open, ..., close, open again; two with-blocks.  The tracked
+# level survives close(): the new session starts with the belief the previous one left (the default level after on_close's
+# acquire_priv) while the device is wherever a fresh login puts it (exec `>` vs privilege_exec `#`).  Only on_open's
+# explicit acquire_priv — which reads the prompt — re-synchronises them; an on_open that leaves this to send_command,
+# which trusts the tracked level, types its lines and the user's at the login level.
+# ------------------------------------------------------------------------------------------------
+def reopen_scenarios(info, thorough):
+    out = []
+    for plat in PLATFORMS:
+        pi = info[plat]
+        default = [n for n, i in pi["level_ids"].items() if i == pi["default"]][0]
+        registered = list(pi["sessions"])
+        names = [nm for nm in pi["level_ids"] if pi["level_ids"][nm] < pi["nbase"]] + registered
+        cfgs = [c for c in cfg_levels(pi) if c in names]
+        others = [x for x in names if x not in cfgs and x != default]
+        # where the first session is when it is closed: the command level, every other non-configuration level (exec, tclsh,
+        # shell ...), every configuration level / registered session
+        pres = [[]] + [[{"op": "acquire", "level": x}] for x in others] + \
+               [[{"op": "cfgs", "lines": ["show u1"], "priv": c}] for c in [None] + cfgs[1:]]
+        t1 = [{"op": "cmds", "lines": ["show u2"], "single": True},
+              {"op": "cmds", "lines": ["show u2", "show u3"]},
+              {"op": "cfgs", "lines": ["show u2"], "priv": None},
+              {"op": "interactive", "lines": ["show u2"], "priv": None},
+              {"op": "acquire", "level": default}]
+        t1 += [{"op": "cfgs", "lines": ["show u2"], "priv": c} for c in cfgs[1:][-1:]]
+        if thorough:
+            t1 += [{"op": "cfgs", "lines": ["show u2"], "priv": c} for c in cfgs[1:][:-1]] + \
+                  [{"op": "acquire", "level": x} for x in others] + [{"op": "interactive", "lines": ["show u2"], "priv": cfgs[0]}]
+        t2 = {"op": "cmds", "lines": ["show u4"], "single": True}
+        lg = logins(pi)
+        n = 0
+        for l1 in lg:
+            for l2 in lg:
+                for pre in pres:
+                    for a in t1:
+                        n += 1
+                        via = "with" if n % 3 == 0 else None          # two with-blocks: __enter__/__exit__ (async: __aenter__ ...)
+                        o_open = lambda login=None: dict({"op": "open"}, **(dict(via=via) if via else {}), **(dict(login=login) if login else {}))
+                        o_close = dict({"op": "close"}, **(dict(via=via) if via else {}))
+                        ops = [o_open()] + [{"op": "register", "name": s_} for s_ in registered] + [dict(o) for o in pre] + \
+                              [dict(o_close), o_open(l2), dict(a), dict(t2)]
+                        if thorough or n % 4 == 0:                        # a third session, back at the first login level
+                            ops += [dict(o_close), o_open(l1), {"op": "cmds", "lines": ["show u5"], "single": True}]
+                        for stack in ("sync", "async"):
+                            if not thorough and (n + (stack == "sync")) % 2 and l1 == l2 == default:
+                                continue     # quick: same login level as the command level both times: one stack in rotation
+                            out.append(({"platform": plat, "stack": stack, "login": l1, "secret": None, "policy": ["whole"],
+                                         "ops": [dict(o) for o in ops]}, "reopen"))
+    return out
+
+
+def reopen_random(info, rng, thorough):
+    """two or three random sessions on one driver object (any chunking), generic mode switched off before a close so that
+    the next session's generator starts from what it assumes"""
+    out = []
+    for j in range(150 if thorough else 20):
+        plat = PLATFORMS[j % len(PLATFORMS)]
+        pi = info[plat]
+        lg = logins(pi)
+        ops = []
+        registered = []
+        for k in range(rng.choice([2, 2, 3])):
+            part = gen_history(rng, pi, plat)[:rng.choice([3, 5, 8])]
+            part[0] = dict(part[0], login=rng.choice(lg))
+            part = [o for o in part if not (o["op"] == "register" and o["name"] in registered)]
+            registered += [o["name"] for o in part if o["op"] == "register"]
+            gen_on = [o["value"] for o in part if o["op"] == "generic"]
+            if gen_on and gen_on[-1]:
+                part.append({"op": "generic", "value": False})
+            ops += part + [{"op": "close"}]
+        login = ops[0].pop("login")
+        pol = rng.choice([["whole"], ["whole"], ["bytes", rng.choice([1, 3, 16])], ["random", rng.randint(0, 10 ** 6), 9]])
+        for stack in ("sync", "async"):
+            out.append(({"platform": plat, "stack": stack, "login": login, "secret": None, "policy": pol,
+                         "ops": [dict(o) for o in ops]}, "reopen-random"))
+    return out
+
+
+# ------------------------------------------------------------------------------------------------
+# refusing / ignoring devices: a transition of the vendor table is answered with the invalid-input text (configuration
+# locked by another user, command not authorised) or with a bare prompt, and the device stays where it is.  The device's
+# mode is still changed only by the driver's own actions (the property's proviso), so the property stands: the driver must
+# find out from the prompt that it did not arrive, and no user line may reach the device in the level it is stuck in.
+# ------------------------------------------------------------------------------------------------
+def device_edges(info, plat):
+    """(device mode, line, target mode) of the vendor table (harness/simdevice.py), sessions of the generated family included"""
+    from . import simdevice
+    pi = info[plat]
+    t = simdevice.PLATFORMS[plat]()
+    out = []
+    for m, table in t["trans"].items():
+        for mm in (["session:" + s for s in pi["sessions"]] if m == "session" else [m]):
+            for ln, (_kind, target) in table.items():
+                out.append((mm, ln, target))
+    if t.get("session_cmd"):
+        for s_ in pi["sessions"]:
+            out.append(("privilege_exec", t["session_cmd"] + s_, "session:" + s_))
+    return out
+
+
+def refuse_scenarios(info, thorough):
+    out = []
+    for plat in PLATFORMS:
+        pi = info[plat]
+        default = [n for n, i in pi["level_ids"].items() if i == pi["default"]][0]
+        registered = list(pi["sessions"])
+        names = [nm for nm in pi["level_ids"] if pi["level_ids"][nm] < pi["nbase"]] + registered
+        cfgs = [c for c in cfg_levels(pi) if c in names]
+        n = 0
+        for (m, ln, target) in device_edges(info, plat):
+            src, dst = dev_mode_name(m), dev_mode_name(target)
+            if src not in names or dst not in names:
+                continue
+
+            def to(level, lines):
+                """the operations that need the connection in `level`"""
+                r = [{"op": "acquire", "level": level}]
+                if level in cfgs:
+                    r += [{"op": "cfgs", "lines": list(lines), "priv": None if level == cfgs[0] else level},
+                          {"op": "interactive", "lines": list(lines[:1]), "priv": level}]
+                if level == default:
+                    r += [{"op": "cmds", "lines": list(lines[:1]), "single": True}, {"op": "cmds", "lines": list(lines)}]
+                return r
+
+            goto = [] if src == default else [to(src, ["show u1"])[1 if src in cfgs else 0]]
+            for cross in to(dst, ["show u2", "show u3"]):
+                again = dict(cross)
+                if again.get("lines"):
+                    again["lines"] = ["show u4", "show u5"][:len(again["lines"])]
+                for kind in ("refuse", "ignore"):
+                    n += 1
+                    ops = [{"op": "open"}] + [{"op": "register", "name": s_} for s_ in registered] + [dict(o) for o in goto] + \
+                          [dict(cross), again, {"op": "cmds", "lines": ["show u6"], "single": True},
+                           {"op": "cfgs", "lines": ["show u7"], "priv": None}]
+                    for login in logins(pi):
+                        for stack in ("sync", "async"):
+                            if not thorough and (n + (stack == "sync") + (login == default)) % 2:
+                                continue
+                            out.append(({"platform": plat, "stack": stack, "login": login, "secret": None, "policy": ["whole"],
+                                         kind: [[m, ln]], "ops": [dict(o) for o in ops]}, "dev-" + kind))
+    return out
+
+
+def has_reopen(sc):
+    return any(o["op"] == "close" for o in sc["ops"])
+
+
 def logins(pi):
     inv ={i: n for n, i in pi["level_ids"].items()}
     return [inv[i] for i in pi["login"]]
@@ -783,6 +987,9 @@ def strip_sc(sc):
     out = {k: sc[k] for k in ("platform", "stack", "login", "secret", "policy")}
     if sc.get("extra_sessions"):
         out["extra_sessions"] = list(sc["extra_sessions"])
+    for k in ("refuse", "ignore"):
+        if sc.get(k):
+            out[k] = [list(x) for x in sc[k]]
     out["ops"] = [{k: v for k, v in o.items() if k != "probe"} for o in sc["ops"]]
     return out
 
@@ -796,7 +1003,16 @@ def load_gen(rep):
         _, info = gen_netdriver.generate(rep.workdir)
     except Exception as e:  # translator aborted: broken tie
         rep.broken.append("gen_netdriver: %s: %s" % (type(e).__name__, e))
-        return None
+        # the failing-input search does not stop here: the names the device-log oracle needs are read again with as few
+        # assumptions as possible and every history is run on the real code, oracle-only (nothing goes to the model)
+        try:
+            info = gen_netdriver.fallback_info(e)
+            for plat in PLATFORMS:
+                info[plat]["problems"] = []          # reported once, above
+                info[plat]["fallback"] = True
+        except Exception as e2:  # noqa: not even a driver object can be made
+            rep.notes.append("no fallback tables either: %s: %s" % (type(e2).__name__, e2))
+            return None
     return info
 
 
@@ -824,6 +1040,24 @@ def report_failure(rep, info, sc, obs, fail, suite):
                                 "signature": sig, "rerun": "./check C03 --replay <this file>"}, signature=sig)
 
 
+def well_formed(ops):
+    """sessions of one driver object: open ... close, open ... close, ...: an open only on a closed connection, a close only
+    on an open one, every other operation inside a session"""
+    is_open = False
+    for o in ops:
+        if o["op"] == "open":
+            if is_open:
+                return False
+            is_open = True
+        elif o["op"] == "close":
+            if not is_open:
+                return False
+            is_open = False
+        elif not is_open:
+            return False
+    return True
+
+
 def shrink(info, sc, fail, belief=True):
     """drop operations while the oracle still fails the same way (same text modulo op index)"""
     cur, curfail = sc, fail
@@ -832,6 +1066,8 @@ def shrink(info, sc, fail, belief=True):
         changed = False
         for j in range(len(cur["ops"]) - 1, 0, -1):
             cand = dict(cur, ops=cur["ops"][:j] + cur["ops"][j + 1:])
+            if not well_formed(cand["ops"]):
+                continue
             try:
                 f = oracle(info, cand, run_history(info, cand), belief=belief)
             except Exception:  # noqa
@@ -850,7 +1086,8 @@ def run(rep):
     if info is not None:
         for plat in PLATFORMS:
             for msg in info[plat].get("problems", []):
-                rep.broken.append("gen_netdriver: " + msg)
+                if "gen_netdriver: " + msg not in rep.broken:
+                    rep.broken.append("gen_netdriver: " + msg)
         rc, out, _ = common.coqc(os.path.join(rep.workdir, "Gen_NetDriver.v"), rep.workdir)
         if rc:
             rep.broken.append("Gen_NetDriver.v")
@@ -919,6 +1156,11 @@ def run(rep):
     scenarios += reg_late_scenarios(info, thorough)
     # 6. abort-then: a failing line under stop_on_failed (the platform _abort_config runs), then the next operations
     scenarios += abort_then_scenarios(info, thorough)
+    # 7. re-open: second / third session of one driver object, the device re-started at a login level
+    scenarios += reopen_scenarios(info, thorough)
+    scenarios += reopen_random(info, rng, thorough)
+    # 8. devices that refuse / ignore one transition of the vendor table
+    scenarios += refuse_scenarios(info, thorough)
 
     terms, kept, term_ix = [], [], []
     dist = {"by_suite": {}, "by_platform": {}, "op_kinds": {}, "results": {}, "history_len": {}, "in_known_region": 0,
@@ -988,6 +1230,10 @@ def run(rep):
         kept.append((sc, obs, suite))
         if sc.get("extra_sessions"):
             dist["oracle_only(extra_sessions)"] += 1      # session names outside the generated family: not in the model
+        elif has_reopen(sc):
+            dist["oracle_only(reopen)"] = dist.get("oracle_only(reopen)", 0) + 1      # close / a new session: not in the model
+        elif sc.get("refuse") or sc.get("ignore"):
+            dist["oracle_only(refusing device)"] = dist.get("oracle_only(refusing device)", 0) + 1   # the model's device is compliant
         elif untranslated(info, sc["platform"]):
             dist["oracle_only(untranslated platform)"] += 1   # the tie is reported broken; the oracle still judges the real code
         elif not has_faults(sc) or points is not None:
@@ -1067,6 +1313,18 @@ def run(rep):
                 "send_interactive(L), acquire_priv(L), send_configs(another level), send_configs('configuration' named)} and t2 = send_command "
                 "(thorough: more t1 / t2), x login x sync/async; judged on the device's log also when the translator refuses _abort_config "
                 "(then not in the model). "
+                "reopen (all five platforms, oracle-only): open [at login l1], register the sessions, leave the session in X in {command "
+                "level, every other non-configuration level, every configuration level / session}, close, open again with the device "
+                "re-started at login level l2 (l1, l2 over all login levels; every third history as two with-blocks), then t1 in "
+                "{send_command, send_commands, send_configs(), send_configs(last level), send_interactive, acquire_priv(default)} "
+                "(thorough: every level) and send_command; every fourth (thorough: every) history goes on with close, open at l1, "
+                "send_command; on_open's own send_command lines are held to the default level; reopen-random: 2-3 random sessions "
+                "on one driver object, any chunking. "
+                "dev-refuse / dev-ignore (oracle-only): for every transition (mode, line) of the vendor table, sessions included, the "
+                "device refuses (invalid-input text) / ignores (bare prompt) it for the whole history: open, register, get to the "
+                "transition's source level, then an operation that needs its target (acquire_priv / send_configs / send_interactive / "
+                "send_command(s)), the same again, send_command, send_configs(); x login x sync/async (quick: half of them in rotation). "
+                "A GenError of the translator (any function, any platform) leaves all suites running, oracle-only on what was refused. "
                 "non-trivial = at least 3 operations and at least 3 navigation/abort lines executed by the device; "
                 "distinct = (platform, stack, login, secret, operation list)" % L)
     for sc, obs, suite in kept[:1] + kept[len(kept) // 2: len(kept) // 2 + 1] + kept[-1:]:
@@ -1175,7 +1433,13 @@ MANIFEST = {
             "send_command / send_interactive(L) / acquire_priv(L), then send_command) and an independent oracle reads the device's own execution log "
             "(a history in which a user line arrived in the wrong mode is reported with that line, ahead of belief-only differences); the oracle takes "
             "a DUMMY belief for the known finding's premise only if the history accounts for it (login, generic mode switched on, an operation "
-            "that did not complete) — a completed operation, registration in particular, that forgets a known level is not excused.",
+            "that did not complete) — a completed operation, registration in particular, that forgets a known level is not excused. "
+            "Beyond the model, by the device-log oracle on both real drivers only: re-open histories (the second / third session of one driver "
+            "object — open, close, open again / two with-blocks — the device re-started at each login level, the first session closed in "
+            "every level; the lines on_open passes to send_command are held to the default desired level like any command) and devices that "
+            "refuse or ignore one transition of the vendor table (every transition x every operation needing it). A refusal of the translator "
+            "(GenError in any function: on_open, _abort_config, acquire_priv's loop, the tables) is a reported broken tie and never ends the "
+            "failing-input search: the suites are still run on the real code and judged by the oracle.",
     "note": "Trusted: Coq kernel + vm_compute; hand model coq/model/NetDriver.v (navigation, _process_acquire_priv, send loops, five _abort_config "
             "variants; Junos abort modelled for both shapes, selected by an ast fact); gen/gen_netdriver.py (share class := equal pattern string and "
             "not_contains list — the classification fact C05 proves is assumed here and exercised only on SimDevice's prompts); the vendor device "
@@ -1195,6 +1459,16 @@ MANIFEST = {
             "business (C01) and enters only through the runs. The scenario loop and the device-log oracle do not depend on the translator's reading "
             "of _abort_config: if gen_netdriver refuses that function on a platform (tie reported broken, props not compiled) the platform's "
             "histories — abort-then included — are still run on both real drivers and judged ORACLE-ONLY (not put to the model; the lines the "
-            "untranslated abort step types after the failing line are not constrained, the level of every user line and the belief are).",
+            "untranslated abort step types after the failing line are not constrained, the level of every user line and the belief are). "
+            "ORACLE-ONLY, not in the Coq model: close() and every later session of the same driver object (suites reopen, reopen-random: the "
+            "model's state has no 'session over' / device re-start; what on_close types is read off the function with a recording stub and "
+            "allowed in the close operation only); devices that refuse / ignore a transition (suites dev-refuse, dev-ignore: the model's device "
+            "is the compliant vendor table); the re-started device is SimDevice put back to a login level with an empty line buffer and a fresh "
+            "prompt, unread output of the old session discarded. Likewise every history of a platform (or, when acquire_priv's loop or "
+            "generate() as a whole is refused, of all platforms) whose translation raised GenError: gen_netdriver then hands out fallback "
+            "tables for the oracle only (level names = keys of a constructed driver's privilege_levels, lines = escalate/deescalate strings + "
+            "vendor table + what on_open / on_close send to a recording stub; a placeholder platform in Gen_NetDriver.v on which nothing is "
+            "evaluated); the lines an untranslated on_open / on_close / abort step types are then not constrained, the level of every user "
+            "line and the belief are.",
     "technique": "Coq: invariant over all histories (with interruption points) + per-platform finite check by vm_compute (reflection) + ast order fact + ast register fact; vm_compute correspondence of the model against both real drivers; fault-injecting scripted transports; device-log oracle",
 }
